@@ -695,9 +695,9 @@ impl Engine for WireEngine {
                 Tier::Thorough => 60_000,
             },
             level: "fault_enumeration",
-            rule: "SCOPED claim: inputs are honest encodings (produced by the real STM / mithril-common code from a seeded configuration) passed through a finite sequence of transport / storage faults; arbitrary byte strings, grammar-based generation and coverage-guided mutation are fuzzing and are NOT claimed. One run = one seeded honest value set (keys, registration, signatures, aggregate, certificates, proofs, messages; ~100 encodings: CBOR-v1 bytes, hand-packed legacy bytes, hex of both, JSON-hex, JSON, JSON-string documents, bincode, DMQ frame) + (1) the fault-free round trip of every encoding through every public entry point of its form, (2) for one primary encoding chosen round-robin by run index the COMPLETE single-fault enumeration (every bit flip in the first 64 bytes and in every structurally located version / length / count / header byte incl. nested envelopes, stuck-at overwrites 00/ff/7f/80 of those bytes, every truncation point, zero-fill and ones-fill of every 16-byte block) through every entry point of that encoding, (3) 150 seeded single faults anywhere, (4) 200 seeded 2-4-fault cases incl. tail duplication, splices and concatenation of two honest encodings, (5) 60 misdirected deliveries (an honest or once-damaged encoding handed to a decoder of another type/form); the seeded counts (3)-(5) are x4 in the thorough tier. Every 5th run is fault-free with three value sets. 'evaluations' counts runs, counter 'cases' counts decoder invocations. A run is non-trivial iff at least one decode entry ran and, in fault-injecting runs, at least one fault fired (changed the buffer); distinct = hash of the set of (type, form, entry, fault kinds fired, outcome class) tuples of the run; abstract states = those tuples.".into(),
+            rule: "SCOPED claim: inputs are honest encodings (produced by the real STM / mithril-common code from a seeded configuration) passed through a finite sequence of transport / storage faults; arbitrary byte strings, grammar-based generation and coverage-guided mutation are fuzzing and are NOT claimed. One run = one seeded honest value set (keys, registration, signatures, aggregate, certificates, proofs, messages; ~100 encodings: CBOR-v1 bytes, hand-packed legacy bytes, hex of both, JSON-hex, JSON, JSON-string documents, bincode, DMQ frame) + (1) the fault-free round trip of every encoding through every public entry point of its form, (2) for one primary encoding chosen round-robin by run index the COMPLETE single-fault enumeration (every bit flip in the first 64 bytes and in every structurally located version / length / count / header byte incl. nested envelopes, stuck-at overwrites 00/ff/7f/80 of those bytes, every truncation point, zero-fill and ones-fill of every 16-byte block, and WORD OVERWRITE: every structurally located length / count / size field - legacy u64 fields incl. nested ones, the first words of a CBOR encoding where the legacy parsers read their counts, DMQ frame lengths, bincode varints, contiguous CBOR container headers with 1/2/4/8-byte arguments or rewritten to an 8-byte argument, the same fields inside hex text and inside the hex proof of a JSON message; at most 32 fields per encoding - replaced in place by every value of a finite boundary set of its width: 0, 1, 2^k-1 / 2^k / 2^k+1 for k in 7,8,15,16,31,32,60..63, MAX-c for c<=8, floor(MAX/s)+d for |d|<=8, MAX-s+-c and floor((MAX-c)/s)+-2 for the element sizes s = 8..448 the decoders multiply or add with; 300-950 values per field) through every entry point of that encoding, (3) 150 seeded single faults anywhere, (4) 200 seeded 2-4-fault cases incl. tail duplication, splices and concatenation of two honest encodings and (30 % of the draws on encodings with located fields) word overwrites with a boundary value or a stale word read from another honest encoding, (5) 60 misdirected deliveries (an honest or once-damaged encoding handed to a decoder of another type/form); the seeded counts (3)-(5) are x4 in the thorough tier. Every 5th run is fault-free with three value sets. 'evaluations' counts runs, counter 'cases' counts decoder invocations. A run is non-trivial iff at least one decode entry ran and, in fault-injecting runs, at least one fault fired (changed the buffer); distinct = hash of the set of (type, form, entry, fault kinds fired, outcome class) tuples of the run; abstract states = those tuples.".into(),
             assumptions: vec![
-                "fault model: bit flip, byte overwrite, truncation, constant fill of a block (0x00 lost sector, 0xff erased flash page), tail duplication, splice / concatenation of honest encodings, misdirected delivery, applied to the binary, hex and JSON text forms; at most 4 faults per case".into(),
+                "fault model: bit flip, byte overwrite, word overwrite (a misdirected or stale word-sized write that lands on a located length / count / size field of the honest encoding; the buffer length never changes; values from a finite boundary set or taken from another honest encoding - still an honest encoding damaged at a located field, not an arbitrary byte string), truncation, constant fill of a block (0x00 lost sector, 0xff erased flash page), tail duplication, splice / concatenation of honest encodings, misdirected delivery, applied to the binary, hex and JSON text forms; at most 4 faults per case".into(),
                 "text handed to &str entry points is obtained with String::from_utf8_lossy (a lossy reader); JSON documents are parsed from raw bytes (serde_json::from_slice) as the HTTP stack does".into(),
                 "overflow checks and debug assertions are ON (sim profile): an arithmetic overflow that a default release build would wrap silently is reported as a violation because the statement forbids it; each replay file says which it is".into(),
                 "allocation monitor: largest single request <= 64 x input length + 1 MiB and peak live bytes <= 256 x input length + 8 MiB per decode; a request above 256 MiB is never served (the requesting thread is parked and the case reported), so Vec::with_capacity and vec![0; n] are observed alike".into(),
